@@ -378,37 +378,43 @@ func affineInPhi(v ssa.Value) (*ssa.Phi, int64, bool) {
 // make([]T, n) with per-iteration step S; a dominating exact-length guard says
 // len(data[init:]) == S * n (or len(data) == S*n with init == 0). The read needs `need` bytes at off.
 func strideProven(f *ssa.Function, data, off ssa.Value, need int64, at *ssa.BasicBlock) (bool, string) {
-	phi, k, ok := affineInPhi(off)
-	if !ok {
-		return false, "offset is not an induction variable plus a constant"
-	}
-	hb := phi.Block()
-	// init and step
-	var init int64
-	initOK := false
-	var step int64
-	stepOK := true
-	for i, e := range phi.Edges {
-		pred := hb.Preds[i]
-		if hb.Dominates(pred) { // back edge
-			p2, k2, ok := affineInPhi(e)
-			if !ok || p2 != phi {
-				return false, "offset is not advanced by constants"
-			}
-			if step != 0 && step != k2 {
-				stepOK = false
-			}
-			step = k2
-		} else {
-			c, ok := cInt((e))
-			if !ok {
-				return false, "offset does not start at a constant"
-			}
-			init, initOK = c, true
+	var hb *ssa.BasicBlock
+	var init, step, k int64
+	if h2, s2, k2, ok := mulIndexOffset(off); ok {
+		// offset recomputed per iteration as (loop index) * S + k: entry i starts at i*S
+		hb, init, step, k = h2, 0, s2, k2
+	} else {
+		phi, k1, ok := affineInPhi(off)
+		if !ok {
+			return false, "offset is not an induction variable plus a constant"
 		}
-	}
-	if !initOK || !stepOK || step <= 0 {
-		return false, "offset induction not recognised"
+		k = k1
+		hb = phi.Block()
+		// init and step
+		initOK := false
+		stepOK := true
+		for i, e := range phi.Edges {
+			pred := hb.Preds[i]
+			if hb.Dominates(pred) { // back edge
+				p2, k2, ok := affineInPhi(e)
+				if !ok || p2 != phi {
+					return false, "offset is not advanced by constants"
+				}
+				if step != 0 && step != k2 {
+					stepOK = false
+				}
+				step = k2
+			} else {
+				c, ok := cInt((e))
+				if !ok {
+					return false, "offset does not start at a constant"
+				}
+				init, initOK = c, true
+			}
+		}
+		if !initOK || !stepOK || step <= 0 {
+			return false, "offset induction not recognised"
+		}
 	}
 	if k+need > step {
 		return false, fmt.Sprintf("read of %d byte(s) at +%d exceeds the per-entry stride %d", need, k, step)
@@ -497,6 +503,58 @@ func strideProven(f *ssa.Function, data, off ssa.Value, need int64, at *ssa.Basi
 		}
 	}
 	return false, "no exact-length guard len(data[init:]) == stride*n dominates the loop"
+}
+
+// mulIndexOffset: off = idx*S + k where idx is the index of a counting loop (0, 1, 2, ... one step per iteration:
+// a header phi starting at -1 that is used incremented, as range loops are lowered, or a phi starting at 0 that is
+// used as is) and S, k are constants. Returns the loop header, S and k.
+func mulIndexOffset(off ssa.Value) (*ssa.BasicBlock, int64, int64, bool) {
+	k := int64(0)
+	v := canonConv(off)
+	for depth := 0; depth < 6; depth++ {
+		bo, ok := v.(*ssa.BinOp)
+		if !ok {
+			return nil, 0, 0, false
+		}
+		if bo.Op == token.ADD {
+			if c, ok := cInt(bo.Y); ok {
+				k += c
+				v = canonConv(bo.X)
+				continue
+			}
+			return nil, 0, 0, false
+		}
+		if bo.Op != token.MUL {
+			return nil, 0, 0, false
+		}
+		for _, pr := range [][2]ssa.Value{{bo.X, bo.Y}, {bo.Y, bo.X}} {
+			s, ok := cInt(pr[1])
+			if !ok || s <= 0 {
+				continue
+			}
+			phi, ki, ok := affineInPhi(pr[0])
+			if !ok {
+				continue
+			}
+			hb := phi.Block()
+			start, okStart, okStep := int64(0), false, true
+			for i, e := range phi.Edges {
+				if hb.Dominates(hb.Preds[i]) {
+					p2, k2, ok := affineInPhi(e)
+					if !ok || p2 != phi || k2 != 1 {
+						okStep = false
+					}
+				} else if c, ok := cInt(e); ok {
+					start, okStart = c, true
+				}
+			}
+			if okStart && okStep && start+ki == 0 {
+				return hb, s, k, true
+			}
+		}
+		return nil, 0, 0, false
+	}
+	return nil, 0, 0, false
 }
 
 // chunkProven: idiom B. off = i*K with i ranging over make([]T, len(b)/K); need <= K.
